@@ -87,7 +87,8 @@ class Landing:
     released, or nothing else in the system can run; action 'kill': the process dies there (SIGKILL).
     """
 
-    def __init__(self, world, kind, k, action="hold"):
+    def __init__(self, world, kind, k, action="hold", select=None):
+        self.select = select
         self.w = world
         self.sim = world.sim
         self.kind = kind
@@ -106,6 +107,8 @@ class Landing:
         self.sim.deadlock_hooks.append(self.on_deadlock)
 
     def _select(self, a):
+        if self.select is not None:
+            return self.select(a)
         if is_thread_kind(self.kind):
             return a.kind == "thread" and a.pid == self.sim.main.pid
         return a.kind == "process-main"
@@ -129,7 +132,10 @@ class Landing:
         self.clock = self.sim.clock
         if self.action == "kill":
             proc = self.sim.procs.get(a.pid)
-            proc._die(-9)
+            if proc is not None:
+                proc._die(-9)
+            else:
+                simos.kill_plain_pid(self.sim, a.pid)
             raise Killed()
         if self.action == "hold":
             a.hold = True
